@@ -429,7 +429,11 @@ class PandasMetrics(NDFrame):
         Freq: D, dtype: float64
         """
         self_returns = self.simple_returns()
-        other_returns = other.simple_returns().squeeze().reindex(self_returns.index)
+        other_returns = other.simple_returns()
+        if isinstance(other_returns, pd.DataFrame):
+            # Squeeze the columns only: a single return must stay a Series.
+            other_returns = other_returns.squeeze(axis="columns")
+        other_returns = other_returns.reindex(self_returns.index)
         excess_returns = self_returns.subtract(other_returns, axis=0)
         return excess_returns
 
